@@ -14,7 +14,10 @@ EXPLANATION = ("P1 the PEG extracted from the nom combinator calls of src/filter
                "semantic actions build RFC 4511 Filter shapes: and [0], or [1], not [2] explicit (abstractly evaluated on every path); the attribute-value "
                "items - found by the role of each parse step, not by function name - by exhaustive literal evaluation of the item parser over operator x "
                "value empty/not x every admissible `*` list of 0..4 components: equalityMatch [3], substrings [4] {initial [0], any [1], final [2]}, >= [5], "
-               "<= [6], present [7] primitive, ~= [8]; extensibleMatch [9] {matchingRule [1], type [2], matchValue [3], dnAttributes [4]} with the parser "
+               "<= [6], present [7] primitive, ~= [8]; WHICH piece becomes initial / any / final decided as a function of the pieces' positions alone (P3.substring-placement): the same "
+               "evaluation on every pattern of equal / different contents of up to four pieces after the first asterisk (an `any` equal to the final piece, all equal, ...), with contents "
+               "of one length and of different lengths, with and without a trailing asterisk, the initial value absent / different / equal to the last piece - a comparison of two "
+               "pieces' contents is evaluated on the octets, a comparison of two references' addresses (ptr::eq) on the positions they point to; extensibleMatch [9] {matchingRule [1], type [2], matchValue [3], dnAttributes [4]} with the parser "
                "output feeding each slot; P4 the equality / presence / substring discrimination (same evaluation), no `*` list after an ordering / approx "
                "operator, and the adjacent-asterisk test evaluated on all 121 lists of 0..4 components over {empty, x, *}; P5 the "
                "unescaper's transition table over {backslash, hex digit, other} x {WantFirst, WantSecond, Value, Error} and acceptance only "
@@ -27,7 +30,7 @@ EXPLANATION = ("P1 the PEG extracted from the nom combinator calls of src/filter
                "between hand one part's tree upwards unchanged. Not decided: "
                "'printing the BER reproduces the input' taken whole.")
 TRUSTED = ['nom combinator semantics', 'RFC 4515 grammar transcribed below', 'rules/triage/C08.tsv']
-UNDECIDED = ['round trip through a canonical printer taken whole', 'a value computation that is not a per-octet fold over Unescaper::feed is decided on literal values up to 121 octets (around every integer constant of its code), not for every length']
+UNDECIDED = ['round trip through a canonical printer taken whole', 'the initial / any / final placement is decided on `*` lists of up to four non-empty pieces (+ a trailing asterisk): a placement that changes from the fifth piece on is not seen', 'a value computation that is not a per-octet fold over Unescaper::feed is decided on literal values up to 121 octets (around every integer constant of its code), not for every length']
 ASSUMPTIONS = []
 SHARED = [('C07', ('B1.', 'B2m.', 'B4.encoder', 'B5.'), 'P7.ber-writer')]
 TRIAGE = os.path.join(engine.VERIF, 'rules', 'triage', 'C08.tsv')
@@ -590,7 +593,8 @@ def check_simple_items(ctx, f, X, rules, classmap, inl):
     and the Tag built on the single resulting path is compared with the RFC 4511 Filter the item denotes.  The code decides on a
     list only through its length, the emptiness of a component and a component's position relative to the end; lengths 0..4
     cover {no asterisk, one, two (an `any` component), three and four (several `any` components in order)} x {last empty, not}, and the
-    distinct literals tie every output octet string to the component it must come from.  So the discrimination equality /
+    distinct literals tie every output octet string to the component it must come from (lists with EQUAL components - where a
+    placement that compares contents instead of positions goes wrong - are check_placement's).  So the discrimination equality /
     presence / substrings, the initial / any / final tagging and the operator table are decided however they are spelled (a
     loop with `break`, `pop` + `extend(map)`, a `match`, one merged function or two).  A combination the evaluator cannot
     decide (more than one path, an unknown construct) is a violation: the rule fails closed.
